@@ -162,7 +162,8 @@ def check_case(logls, sched, expectation, nlive, int_schedule, errs, label):
     except Exception as e:
         errs.append((f"raises-{type(e).__name__}:{label}", f"{e} on logL={logls} sched={sched} {expectation}"))
         return None
-    rect, trap, vols, lw = mp_quadrature(logls, sched, expectation)
+    # the oracle follows the mode that was asked for (spelling is case-insensitive by nessai's validation)
+    rect, trap, vols, lw = mp_quadrature(logls, sched, str(expectation).lower())
     scale = 1 + max(abs(v) for v in fin) + abs(trap)
     tol = 64 * EPS * (N + 2) * scale
     ctxt = f"logL={list(logls)} sched={sched} expectation={expectation}"
@@ -212,7 +213,7 @@ def worker(item):
             if len(w) < nlive:
                 continue
             sched = default_schedule(len(w), nlive)
-            for expectation in ("logt", "t"):
+            for expectation in ("logt", "t") + (("LogT", "LOGT", "T") if nlive == 2 else ()):
                 base = None
                 for a in SCALES:
                     for c in OFFSETS:
